@@ -87,6 +87,10 @@ class LabelJumpWriteHandler(AbstractWriteHandler):
                     self.start_vertex, self.decompiler, self
                 ).write_content()
             except FallbackToJump:
+                # It is handled as a regular jump now, so it must also count as one when the label after it is
+                # processed (for a continue or break_loop marker no jump statement would be written there).
+                op.remove_marker()
+                self.ended_on_jump = True
                 return self._label_jump_marker_handlers[type(None)](
                     self.start_vertex, self.decompiler, self
                 ).write_content()
